@@ -777,6 +777,17 @@ def _np_dtype(name):
             "list": np.float64}[name]
 
 
+def drive_history(rec, case, name, fn, args):
+    """Call history on caller-owned buffers (vt/monitors/history.py); the un-armed function is used so
+    that no post-condition of the single-call checks ends the history."""
+    from vt.monitors import history
+    rec.ev()
+    verdict, detail = history.reuse_check(fn, args)
+    rec.count("history.reuse_" + verdict.replace("/", ""))
+    if verdict == "stale":
+        rec.violation("stale-state", case, dict(detail, function=name))
+
+
 def check_ic(rec, case):
     from vt.models import column_model as cm
     case = materialize(case)
@@ -799,6 +810,12 @@ def check_ic(rec, case):
     else:
         x = _layout(np.asarray(case["x"], dtype=float).reshape(shape), case["layout"])
     want_shape = _drop_axis(shape, ax)
+    if case["dtype"] != "float32" and n % 3 == 0:
+        o_ic = _mon["orig"]["integrate_column"]
+        if x is None:
+            drive_history(rec, case, "integrate_column", lambda yy: o_ic(yy, axis=axis), (y,))
+        else:
+            drive_history(rec, case, "integrate_column", lambda yy, xx: o_ic(yy, xx, axis=axis), (y, x))
 
     def call(yy, xx, axis_arg, key="ic-exception", default_axis=False):
         rec.ev()
@@ -985,6 +1002,13 @@ def check_iwv(rec, case):
     except Exception as exc:
         rec.violation(_exc_key(exc, "iwv-exception"), case, _exc_detail(exc))
         return
+    if n % 2 == 0:
+        o_iwv = _mon["orig"]["integrate_water_vapor"]
+        if general:
+            drive_history(rec, case, "integrate_water_vapor",
+                          lambda v, pp, tt, zz: o_iwv(v, pp, T=tt, z=zz, axis=axis), (vmr, p, T, z))
+        else:
+            drive_history(rec, case, "integrate_water_vapor", lambda v, pp: o_iwv(v, pp, axis=axis), (vmr, p))
     g = np.asarray(got, dtype=float)
     want_shape = _drop_axis(shape, ax)
     if g.shape != want_shape:
@@ -1302,6 +1326,8 @@ def check_p2h(rec, case):
                                       "upper": float(upper[j]), "Tmin": Tmin, "Tmax": Tmax})
         if T is not None and Tmin == Tmax and n >= 2 and upper[-1] > 0:
             rec.maxi("p2h.iso_rel_gap", float((upper[-1] - z[-1]) / upper[-1]))
+        if T is not None and n >= 2 and n % 2 == 0:
+            drive_history(rec, case, "pressure2height", _mon["orig"]["pressure2height"], (p, T))
         if T is not None and Tmin == Tmax and n >= 2:
             # the isothermal column given as one number (python float, numpy scalar, 0-d array): an
             # implementation may refuse it (the documentation asks for an array), but a returned height
